@@ -6,7 +6,9 @@
 # and queue discipline (the frame-end ownership of the receive buffer is
 # resolved through the return values of dispatch_rx_msg), C06.R5 (thorough)
 # DLCI origin at every call site of sercomm_sendmsg, C06.R6 no caller of
-# sercomm_drv_pull drops a pulled octet.  See DESIGN.md section 7, C06.
+# sercomm_drv_pull drops a pulled octet, C06.R7 the msgb helpers R1 relies on
+# (msgb_alloc / msgb_reserve / msgb_tailroom / msgb_put) evaluated on the
+# receive buffer for every fill level.  See DESIGN.md section 7, C06.
 
 import os
 import shutil
@@ -14,7 +16,7 @@ import tempfile
 
 from report import AnalysisError
 from cfront import (TU, CCFG, kids, kind, strip, walk, ctext, cliterals,
-                    calls_to, call_args, strip_comments, array_extent, wrap_int)
+                    calls_to, call_args, strip_comments, array_extent, wrap_int, sizeof_operand_type)
 
 EXPLANATION = (
     "clang AST of sercomm.c (firmware flags and -DHOST_BUILD), msgb.c and, in "
@@ -52,11 +54,18 @@ EXPLANATION = (
     "executed abstractly on its CFG: integer locals concrete, each pull followed with "
     "both outcomes, other call results as symbols under recorded path facts; a pulled "
     "octet is a token that must flow into a call argument / a write() length before "
-    "its storage dies.  A statement about all paths of "
+    "its storage dies.  The msgb helpers the bounded-store argument rests on are not taken on trust: the allocation "
+    "chain sercomm_alloc_msgb -> msgb_alloc_headroom -> msgb_alloc / msgb_reserve and msgb_tailroom / msgb_put "
+    "(msgb.h, msgb.c) are evaluated on the receive buffer of each build - integers concrete, addresses as offsets "
+    "from the allocated block, calls followed - for every fill level under the receiver's protocol (append one octet "
+    "only after msgb_tailroom reported room); only store addresses, reported room and the resulting data / tail / len "
+    "are observed, not how a helper is written.  A statement about all paths of "
     "one step holds for every octet stream and every queueing history.")
 ASSUMPTIONS = [
     "payload equality and FIFO order over all message sequences follow from the per-step tables by induction over the stream (argued in DESIGN.md, not machine-checked)",
-    "msgb invariants: msgb_tailroom() >= 0, a fresh sercomm_alloc_msgb(n) buffer has n octets of tailroom; talloc / msgb_free semantics",
+    "_talloc_zero(ctx, n, name) hands out a zero-filled block of n octets (NULL is not followed); talloc_free / msgb_free release it; "
+    "osmo_panic() does not return; the member _data (checked: last member, octet array without extent) starts at offset "
+    "sizeof(struct msgb); integer arithmetic on buffer sizes <= 65535 does not overflow",
     "llist primitives __llist_add/__llist_del (linuxlist.h) are correct; container_of is type-checked by clang",
     "sercomm_lock/unlock make sendmsg and pull atomic with respect to each other; the receiver runs in one context only",
     "tx.state / rx.state are zero-initialised statics (initial state = enumerator 0)",
@@ -918,7 +927,8 @@ _TR = "msgb_tailroom("
 
 def room_bounds(lits):
     """{buffer text: [min, max]} of msgb_tailroom(buffer) implied by a set of
-    branch literals (max None = unbounded).  msgb_tailroom() >= 0 (trusted)."""
+    branch literals (max None = unbounded).  msgb_tailroom() >= 0: C06.R7 evaluates it at every fill level
+    the receive buffer reaches."""
     out = {}
 
     def upd(buf, lo=None, hi=None):
@@ -1540,72 +1550,42 @@ def r1_bounded_store(L, tu, tag, size, rx):
     L.floor(R, "uses of %s (%s build)" % (RXM, tag), nuse, 5)
 
 
-def fold_with(tu, e, binding):
-    """Constant folding with parameters bound to integers."""
-    v = tu.fold(e)
-    if v is not None:
-        return v
-    e = strip(e, casts=True)
-    i = ref_id(e)
-    if i is not None:
-        return binding.get(i)
-    if kind(e) == "BinaryOperator" and e.get("opcode") in ("+", "-", "*"):
-        a, b = (fold_with(tu, x, binding) for x in kids(e))
-        if a is None or b is None:
-            return None
-        return {"+": a + b, "-": a - b, "*": a * b}[e.get("opcode")]
-    return None
-
-
-def r1_capacity(L, tu, tag, size):
-    """The buffer sercomm_alloc_msgb(SERCOMM_RX_MSG_SIZE) must have room for
-    a payload of that many octets: tailroom = size - headroom of
-    msgb_alloc_headroom(size, headroom), read from the bundled msgb.h."""
+def r1_capacity(L, tu, mtu, tag, size):
+    """The buffer sercomm_alloc_msgb(SERCOMM_RX_MSG_SIZE) must have room for a payload of that many octets, and
+    headroom for the two octets sercomm_sendmsg() prepends.  Room and headroom are those of the buffer the
+    allocation chain really produces: sercomm_alloc_msgb -> msgb_alloc_headroom -> msgb_alloc / msgb_reserve is
+    evaluated (MsgbEval) for this build's size, however the chain is written; room = octets allocated behind the
+    header - offset of the write pointer, headroom = offset of the message start."""
     R = "C06.R1"
     L.unit(MSGB_H)
-    # semantics of the allocation helpers
-    ah = tu.func("msgb_alloc_headroom")
-    pa = tu.fparams(ah)
-    if len(pa) < 2:
-        raise AnalysisError("msgb_alloc_headroom(): signature changed")
-    al = calls_to(ah, "msgb_alloc")
-    rs = calls_to(ah, "msgb_reserve")
-    if len(al) != 1 or len(rs) != 1:
-        raise AnalysisError("msgb_alloc_headroom(): expected one msgb_alloc and one msgb_reserve call -- unclassifiable")
-    L.fn(MSGB_H, "msgb_alloc_headroom")
-    L.require(R, MSGB_H, "msgb_alloc_headroom", "allocates `size` octets and reserves `headroom` of them in front of the data "
-              "(tailroom = size - headroom)", [pa[0]["name"], pa[1]["name"]],
-              [ctext(call_args(al[0])[0]), ctext(call_args(rs[0])[1])])
-    rv = tu.func("msgb_reserve")
-    pr = tu.fparams(rv)
-    moved = sorted((ctext(e[1]), e[2], ctext(e[3])) for e in effects(tu.body(rv)) if e[0] in ("compound", "store", "incdec"))
-    m = pr[0]["name"]
-    L.fn(MSGB_H, "msgb_reserve")
-    L.require(R, MSGB_H, "msgb_reserve", "moves data and tail forward by the reserved length (head stays)",
-              sorted([("%s->data" % m, "+=", pr[1]["name"]), ("%s->tail" % m, "+=", pr[1]["name"])]), moved)
-    # sercomm_alloc_msgb
+    ev, m, extent = fresh_buffer(tu, mtu, size)
+    o = ev.obj
+    tail, data = o.get("tail", 0), o.get("data", 0)
+    if not (_sym(tail) and tail[1] == "buf" and _sym(data) and data[1] == "buf"):
+        raise AnalysisError("sercomm_alloc_msgb(%d): data / tail of the fresh buffer do not point into its data area (%s, %s)" % (
+            size, _vtext(data), _vtext(tail)))
+    for name in sorted(ev.followed):
+        L.fn(helper_file(ev, name), name)
     sa = tu.func("sercomm_alloc_msgb")
-    ps = tu.fparams(sa)
-    calls = calls_to(sa, "msgb_alloc_headroom")
-    if len(ps) != 1 or len(calls) != 1:
-        raise AnalysisError("sercomm_alloc_msgb(): expected one parameter and one msgb_alloc_headroom call -- unclassifiable")
-    L.fn(HDR, "sercomm_alloc_msgb")
-    args = call_args(calls[0])
-    bind = {ps[0].get("id"): size}
-    total, head = fold_with(tu, args[0], bind), fold_with(tu, args[1], bind)
-    if total is None or head is None:
-        raise AnalysisError("sercomm_alloc_msgb(): `%s` / `%s` do not fold for len = %d -- unclassifiable" % (
-            ctext(args[0]), ctext(args[1]), size))
+    total, head = extent, tail[2]
     L.ob(R, HDR, "sercomm_alloc_msgb", "receive capacity (%s build): the buffer allocated for %d octets has tailroom for a "
          "payload of that length (every payload shorter than the receive buffer fits before the closing flag)" % (tag, size),
          "size - headroom >= %d" % size, "%d - %d = %d" % (total, head, total - head), total - head >= size,
-         tu.line(calls[0]))
+         tu.line(sa))
     push = {tu.fold(call_args(c)[1]) for c in calls_to(tu.func("sercomm_sendmsg"), "msgb_push")}
     if len(push) != 1 or None in push:
         raise AnalysisError("sercomm_sendmsg(): header length pushed is not one constant -- unclassifiable")
     need = push.pop()
+    hr = data[2]
+    if ev.find("msgb_headroom") is not None:
+        try:
+            seen = ev.call("msgb_headroom", [m])
+        except _Abort:
+            seen = None
+        if isinstance(seen, int):
+            hr = min(hr, seen)         # msgb_push() tests msgb_headroom(); the octets must also exist
     L.ob(R, HDR, "sercomm_alloc_msgb", "headroom of a sercomm buffer holds the address and control octets sercomm_sendmsg "
-         "prepends", "headroom >= %d" % need, head, head >= need, tu.line(calls[0]))
+         "prepends", "headroom >= %d" % need, hr, hr >= need, tu.line(sa))
 
 
 class TxFacts:
@@ -2445,9 +2425,8 @@ def tu_globals(tu):
     return {d.get("id") for d in kids(tu.ast) if kind(d) == "VarDecl"}
 
 
-def r4_msgb(L):
+def r4_msgb(L, tu):
     R = "C06.R4"
-    tu = TU(L.repo, "libosmo", "src/msgb.c", L=L)
     # enqueue
     fn = tu.func("msgb_enqueue")
     L.fn(MSGB_C, "msgb_enqueue")
@@ -2500,6 +2479,579 @@ def r4_msgb(L):
         else:
             found = [ctext(e[1]) for e in eff if e[0] == "return"]
             L.require(R, LLIST_H, name, "llist_empty() is true iff the head points to itself", [want[1].format(*pn)], found)
+
+
+# ---------------------------------------------- C06.R7 msgb pointer algebra
+
+ABORT_FNS = ("osmo_panic", "abort", "__assert_fail")
+ALLOC_FN = "_talloc_zero"
+HELPER_FILES = {"msgb.c": MSGB_C, "msgb.h": MSGB_H, "sercomm.h": HDR, "sercomm.c": F}
+
+
+class _Abort(Exception):
+    """A call that does not return (osmo_panic) was reached on the evaluated path."""
+
+
+def _sym(v):
+    return isinstance(v, tuple) and len(v) == 3 and v[0] == "@"
+
+
+def _vadd(a, b):
+    if a is None or b is None:
+        return None
+    if isinstance(a, int) and isinstance(b, int):
+        return a + b
+    if _sym(a) and isinstance(b, int):
+        return ("@", a[1], a[2] + b)
+    if isinstance(a, int) and _sym(b):
+        return ("@", b[1], b[2] + a)
+    return None
+
+
+def _vsub(a, b):
+    if a is None or b is None:
+        return None
+    if isinstance(a, int) and isinstance(b, int):
+        return a - b
+    if _sym(a) and isinstance(b, int):
+        return ("@", a[1], a[2] - b)
+    if _sym(a) and _sym(b) and a[1] == b[1]:
+        return a[2] - b[2]
+    return None
+
+
+def _vtruth(v):
+    if isinstance(v, int):
+        return v != 0
+    if _sym(v):
+        return True         # address of the buffer object / its data area, sizeof(struct msgb): never zero
+    return None
+
+
+def _vtext(v):
+    if _sym(v):
+        name = {"buf": "_data", "obj": "<msgb>", "S": "sizeof(struct msgb)"}.get(v[1], v[1])
+        return name if v[2] == 0 else "%s%s%d" % (name, "+" if v[2] > 0 else "-", abs(v[2]))
+    return "?" if v is None else str(v)
+
+
+class MsgbEval:
+    """Evaluation of the msgb helpers on ONE concrete receive buffer: integers are Python integers (wrapped to
+    the C type at integral casts and stores), an address is ('@', base, offset) with base 'obj' (the struct msgb
+    that _talloc_zero() returned) or 'buf' (its member _data, the first octet behind the header);
+    sizeof(struct msgb) is ('@', 'S', 0), so `sizeof(*msg) + n` is ('@', 'S', n).  Addresses add / subtract /
+    compare like C pointers to octets.  Function calls are followed into every function whose body is in one of
+    the translation units; _talloc_zero() creates the (single, zero-filled) buffer object; osmo_panic() ends the
+    path (_Abort).  None = a value the evaluation does not know; a branch on it, a store through it or handing the
+    buffer to a function without body is an AnalysisError - nothing is guessed."""
+
+    MAX_DEPTH = 8
+
+    def __init__(self, tus, max_steps=4000000):
+        self.tus = tus
+        self.obj = None            # field name -> value
+        self.alloc = None          # size argument of the allocation
+        self.stores = []           # addresses written through pointers into the data area
+        self.followed = {}         # function name -> (tu, FunctionDecl)
+        self.steps = 0
+        self.max_steps = max_steps
+
+    # -- functions
+    def find(self, name):
+        hit = self.followed.get(name)
+        if hit is not None:
+            return hit
+        for tu in self.tus:
+            f = tu.functions.get(name)
+            if f is not None and any(kind(c) == "CompoundStmt" for c in kids(f)):
+                self.followed[name] = (tu, f)
+                return tu, f
+        return None
+
+    def call(self, name, args, depth=0):
+        if name in ABORT_FNS:
+            raise _Abort(name)
+        if name == ALLOC_FN:
+            if self.obj is not None:
+                raise AnalysisError("msgb evaluation: a second %s() on the path -- unclassifiable" % ALLOC_FN)
+            if len(args) < 2:
+                raise AnalysisError("msgb evaluation: %s() signature changed" % ALLOC_FN)
+            self.obj, self.alloc = {}, args[1]
+            return ("@", "obj", 0)
+        hit = self.find(name)
+        if hit is None:
+            if any(_sym(a) and a[1] in ("obj", "buf") for a in args):
+                raise AnalysisError("msgb evaluation: the buffer is handed to %s(), whose body is not available" % name)
+            return None
+        if depth >= self.MAX_DEPTH:
+            raise AnalysisError("msgb evaluation: call depth limit at %s()" % name)
+        tu, f = hit
+        params = tu.fparams(f)
+        if len(params) != len(args):
+            raise AnalysisError("msgb evaluation: %s() called with %d arguments" % (name, len(args)))
+        env = {}
+        for p, a in zip(params, args):
+            env[p.get("id")] = self.wrap(a, p.get("type", {}).get("qualType", ""))
+        r = self.run(tu, tu.body(f), env, depth)
+        return r[1] if r is not None and r[0] == "ret" else None
+
+    @staticmethod
+    def wrap(v, qt):
+        if isinstance(v, bool):
+            v = int(v)
+        return wrap_int(v, qt or "") if isinstance(v, int) else v
+
+    def tick(self):
+        self.steps += 1
+        if self.steps > self.max_steps:
+            raise AnalysisError("msgb evaluation: step limit")
+
+    # -- lvalues
+    def lv(self, tu, e, env, depth):
+        e = strip(e)
+        k = kind(e)
+        if k == "DeclRefExpr":
+            rd = e.get("referencedDecl", {})
+            if rd.get("kind") in ("VarDecl", "ParmVarDecl"):
+                return ("var", rd.get("id")) if rd.get("id") in env else ("glob", rd.get("name"))
+            return ("unk",)
+        if k == "MemberExpr":
+            base = kids(e)[0]
+            if e.get("isArrow"):
+                bv = self.ev(tu, base, env, depth)
+            else:
+                sb = strip(base)
+                if kind(sb) == "UnaryOperator" and sb.get("opcode") == "*":
+                    bv = self.ev(tu, kids(sb)[0], env, depth)
+                else:
+                    inner = self.lv(tu, sb, env, depth)
+                    return ("glob", None) if inner[0] == "glob" else ("unk",)
+            if bv == ("@", "obj", 0):
+                return ("field", e.get("name"))
+            if isinstance(bv, int) and bv == 0:
+                raise AnalysisError("msgb evaluation: member access through a null pointer")
+            return ("unk",)
+        if k == "UnaryOperator" and e.get("opcode") == "*":
+            pv = self.ev(tu, kids(e)[0], env, depth)
+            return ("mem", pv) if _sym(pv) and pv[1] == "buf" else ("unk",)
+        if k == "ArraySubscriptExpr":
+            a, b = kids(e)
+            pv = _vadd(self.ev(tu, a, env, depth), self.ev(tu, b, env, depth))
+            return ("mem", pv) if _sym(pv) and pv[1] == "buf" else ("unk",)
+        return ("unk",)
+
+    def load(self, loc, env):
+        if loc[0] == "var":
+            return env.get(loc[1])
+        if loc[0] == "field":
+            if loc[1] == "_data":
+                return None         # contents of the data area
+            return self.obj.get(loc[1], 0)        # zero-filled by the allocation
+        return None                  # globals, buffer contents: unknown
+
+    def store(self, loc, v, qt, env, what):
+        v = self.wrap(v, qt)
+        if loc[0] == "var":
+            env[loc[1]] = v
+        elif loc[0] == "field":
+            self.obj[loc[1]] = v
+        elif loc[0] == "mem":
+            self.stores.append(loc[1])
+        elif loc[0] == "glob":
+            pass
+        else:
+            raise AnalysisError("msgb evaluation: store through an address the evaluation cannot resolve: `%s`" % what)
+
+    # -- expressions
+    def ev(self, tu, e, env, depth):
+        self.tick()
+        if e is None:
+            return None
+        k = kind(e)
+        ks = kids(e)
+        if k in ("ParenExpr", "ConstantExpr"):
+            return self.ev(tu, ks[0], env, depth)
+        if k in ("IntegerLiteral", "CharacterLiteral"):
+            return int(e["value"])
+        if k in ("ImplicitCastExpr", "CStyleCastExpr"):
+            ck = e.get("castKind")
+            if ck == "LValueToRValue":
+                return self.load(self.lv(tu, ks[0], env, depth), env)
+            if ck == "ArrayToPointerDecay":
+                loc = self.lv(tu, ks[0], env, depth) if kind(strip(ks[0])) != "StringLiteral" else ("unk",)
+                return ("@", "buf", 0) if loc == ("field", "_data") else None
+            v = self.ev(tu, ks[0], env, depth)
+            if ck in ("NoOp", "BitCast", "FunctionToPointerDecay"):
+                return v
+            if ck == "NullToPointer":
+                return 0
+            if ck == "IntegralCast":
+                return self.wrap(v, e.get("type", {}).get("qualType", ""))
+            if ck in ("PointerToBoolean", "IntegralToBoolean"):
+                t = _vtruth(v)
+                return None if t is None else int(t)
+            if ck == "ToVoid":
+                return None
+            return None
+        if k == "DeclRefExpr":
+            rd = e.get("referencedDecl", {})
+            if rd.get("kind") == "EnumConstantDecl":
+                return tu.enums.get(rd.get("name"))
+            if rd.get("kind") == "FunctionDecl":
+                return ("fn", rd.get("name"))
+            return self.load(self.lv(tu, e, env, depth), env)
+        if k == "MemberExpr":
+            return self.load(self.lv(tu, e, env, depth), env)
+        if k == "UnaryExprOrTypeTraitExpr":
+            if e.get("name") != "sizeof":
+                return None
+            v = tu.fold(e)
+            if v is not None:
+                return v
+            t = (sizeof_operand_type(e) or "").replace("const ", "").strip()
+            return ("@", "S", 0) if t == "struct msgb" else None
+        if k == "UnaryOperator":
+            op = e.get("opcode")
+            if op in ("++", "--"):
+                loc = self.lv(tu, ks[0], env, depth)
+                old = self.load(loc, env)
+                new = _vadd(old, 1 if op == "++" else -1)
+                self.store(loc, new, e.get("type", {}).get("qualType", ""), env, ctext(e))
+                return old if e.get("isPostfix") else self.load(loc, env)
+            if op == "&":
+                loc = self.lv(tu, ks[0], env, depth)
+                if loc[0] == "mem":
+                    return loc[1]
+                if loc == ("field", "_data"):
+                    return ("@", "buf", 0)
+                return None
+            if op == "*":
+                return self.load(self.lv(tu, e, env, depth), env)
+            v = self.ev(tu, ks[0], env, depth)
+            if op == "!":
+                t = _vtruth(v)
+                return None if t is None else int(not t)
+            if not isinstance(v, int):
+                return None
+            return {"-": -v, "+": v, "~": ~v}.get(op)
+        if k == "BinaryOperator":
+            op = e.get("opcode")
+            if op == "=":
+                v = self.ev(tu, ks[1], env, depth)
+                loc = self.lv(tu, ks[0], env, depth)
+                self.store(loc, v, e.get("type", {}).get("qualType", ""), env, ctext(e))
+                return self.load(loc, env) if loc[0] in ("var", "field") else v
+            if op in ("&&", "||"):
+                a = _vtruth(self.ev(tu, ks[0], env, depth))
+                if a is None:
+                    return None
+                if (op == "&&") != a:
+                    return int(a)
+                b = _vtruth(self.ev(tu, ks[1], env, depth))
+                return None if b is None else int(b)
+            a = self.ev(tu, ks[0], env, depth)
+            b = self.ev(tu, ks[1], env, depth)
+            if op == ",":
+                return b
+            return self.binop(op, a, b)
+        if k == "CompoundAssignOperator":
+            op = e.get("opcode")[:-1]
+            rhs = self.ev(tu, ks[1], env, depth)
+            loc = self.lv(tu, ks[0], env, depth)
+            new = self.binop(op, self.load(loc, env), rhs)
+            self.store(loc, new, e.get("type", {}).get("qualType", ""), env, ctext(e))
+            return self.load(loc, env) if loc[0] in ("var", "field") else new
+        if k == "ConditionalOperator":
+            c = _vtruth(self.ev(tu, ks[0], env, depth))
+            if c is None:
+                raise AnalysisError("msgb evaluation: condition does not evaluate: `%s`" % ctext(ks[0]))
+            return self.ev(tu, ks[1] if c else ks[2], env, depth)
+        if k == "CallExpr":
+            callee = strip(ks[0], casts=True)
+            args = [self.ev(tu, a, env, depth) for a in ks[1:]]
+            rd = callee.get("referencedDecl", {}) if kind(callee) == "DeclRefExpr" else {}
+            if rd.get("kind") != "FunctionDecl":
+                if any(_sym(a) and a[1] in ("obj", "buf") for a in args):
+                    raise AnalysisError("msgb evaluation: the buffer is handed to an indirect call `%s`" % ctext(e))
+                return None
+            return self.call(rd.get("name"), args, depth + 1)
+        if k == "ArraySubscriptExpr":
+            return self.load(self.lv(tu, e, env, depth), env)
+        return None
+
+    @staticmethod
+    def binop(op, a, b):
+        if op == "+":
+            return _vadd(a, b)
+        if op == "-":
+            return _vsub(a, b)
+        if op in CMP:
+            if _sym(a) and isinstance(b, int) and b == 0 and a[1] in ("obj", "buf"):
+                a, b = 1, 0        # a valid address against NULL
+            elif _sym(b) and isinstance(a, int) and a == 0 and b[1] in ("obj", "buf"):
+                a, b = 0, 1
+            elif _sym(a) and _sym(b) and a[1] == b[1]:
+                a, b = a[2], b[2]
+            if not (isinstance(a, int) and isinstance(b, int)):
+                return None
+            return int({"==": a == b, "!=": a != b, "<": a < b, ">": a > b, "<=": a <= b, ">=": a >= b}[op])
+        if not (isinstance(a, int) and isinstance(b, int)):
+            return None
+        try:
+            if op in ("/", "%"):
+                if b == 0:
+                    return None
+                q = abs(a) // abs(b) * (1 if (a < 0) == (b < 0) else -1)
+                return q if op == "/" else a - b * q
+            return {"*": lambda: a * b, "<<": lambda: a << b, ">>": lambda: a >> b, "&": lambda: a & b,
+                    "|": lambda: a | b, "^": lambda: a ^ b}[op]()
+        except (KeyError, ValueError, OverflowError):
+            return None
+
+    # -- statements
+    def cond(self, tu, c, env, depth):
+        t = _vtruth(self.ev(tu, c, env, depth))
+        if t is None:
+            raise AnalysisError("msgb evaluation: condition does not evaluate: `%s`" % ctext(c))
+        return t
+
+    def run(self, tu, st, env, depth):
+        """None | ('ret', value) | ('break',) | ('continue',)"""
+        self.tick()
+        if not st:
+            return None
+        k = kind(st)
+        if k == "CompoundStmt":
+            for x in kids(st):
+                r = self.run(tu, x, env, depth)
+                if r is not None:
+                    return r
+            return None
+        if k == "DeclStmt":
+            for d in kids(st):
+                if kind(d) == "VarDecl":
+                    init = [c for c in kids(d) if "Attr" not in (kind(c) or "")] if d.get("init") else []
+                    v = self.ev(tu, init[-1], env, depth) if init else None
+                    env[d.get("id")] = self.wrap(v, d.get("type", {}).get("qualType", ""))
+            return None
+        if k == "IfStmt":
+            inner = kids(st)
+            if len(inner) not in (2, 3):
+                raise AnalysisError("msgb evaluation: if statement with an unexpected shape")
+            if self.cond(tu, inner[0], env, depth):
+                return self.run(tu, inner[1], env, depth)
+            return self.run(tu, inner[2], env, depth) if len(inner) == 3 else None
+        if k == "ReturnStmt":
+            ks = kids(st)
+            return ("ret", self.ev(tu, ks[0], env, depth) if ks else None)
+        if k in ("NullStmt",):
+            return None
+        if k == "BreakStmt":
+            return ("break",)
+        if k == "ContinueStmt":
+            return ("continue",)
+        if k in ("DoStmt", "WhileStmt"):
+            raw = st.get("inner", [])
+            body, c = (raw[0], raw[1]) if k == "DoStmt" else (raw[-1], raw[-2])
+            first = k == "DoStmt"
+            while True:
+                if not first and not self.cond(tu, c, env, depth):
+                    return None
+                first = False
+                r = self.run(tu, body, env, depth)
+                if r == ("break",):
+                    return None
+                if r is not None and r != ("continue",):
+                    return r
+        if k == "ForStmt":
+            raw = st.get("inner", [])
+            if len(raw) != 5:
+                raise AnalysisError("msgb evaluation: for statement with an unexpected shape")
+            init, _, c, inc, body = raw
+            if init:
+                self.run(tu, init, env, depth)
+            while True:
+                if c and not self.cond(tu, c, env, depth):
+                    return None
+                r = self.run(tu, body, env, depth)
+                if r == ("break",):
+                    return None
+                if r is not None and r != ("continue",):
+                    return r
+                if inc:
+                    self.ev(tu, inc, env, depth)
+        if k in ("SwitchStmt", "GotoStmt", "LabelStmt", "CaseStmt", "DefaultStmt", "GCCAsmStmt"):
+            raise AnalysisError("msgb evaluation: %s in a msgb helper -- unclassifiable" % k)
+        self.ev(tu, st, env, depth)       # expression statement
+        return None
+
+
+def load_msgb_tu(L):
+    return TU(L.repo, "libosmo", "src/msgb.c", L=L)
+
+
+def helper_file(ev, name):
+    """Repository path of the file a followed function is defined in."""
+    hit = ev.followed.get(name)
+    base = os.path.basename((hit[1].get("_file") or "") if hit else "")
+    return HELPER_FILES.get(base, MSGB_H)
+
+
+def fresh_buffer(tu, mtu, size):
+    """(evaluator, buffer address, octets allocated behind the header) after sercomm_alloc_msgb(size)."""
+    ev = MsgbEval((tu, mtu))
+    try:
+        m = ev.call("sercomm_alloc_msgb", [size])
+    except _Abort as e:
+        raise AnalysisError("sercomm_alloc_msgb(%d) ends in %s() -- unclassifiable" % (size, e))
+    if m != ("@", "obj", 0) or ev.obj is None:
+        raise AnalysisError("sercomm_alloc_msgb(%d): the evaluation does not arrive at a buffer obtained from %s()" % (size, ALLOC_FN))
+    if not (_sym(ev.alloc) and ev.alloc[1] == "S"):
+        raise AnalysisError("msgb_alloc(): the block size `%s` is not sizeof(struct msgb) + n -- unclassifiable" % _vtext(ev.alloc))
+    return ev, m, ev.alloc[2]
+
+
+def r7_msgb_algebra(L, tu, mtu, tag, size):
+    """C06.R7 - the capacity oracle.  C06.R1 proves that sercomm_drv_rx_char() appends one octet with
+    msgb_put(rx.msg, 1) only after msgb_tailroom(rx.msg) reported room and otherwise throws the frame away; that
+    is memory safe only if the msgb helpers mean what R1 takes them to mean.  Decides the clauses `an over-long
+    frame is discarded without corrupting memory` and `every payload shorter than the receive buffer is delivered
+    intact` for the helpers themselves, by evaluating their bodies (whatever they are written like: followed
+    calls, temporaries, any spelling of the pointer arithmetic) on the receive buffer of this build for EVERY
+    fill level: buffer := sercomm_alloc_msgb(SERCOMM_RX_MSG_SIZE) [msgb_alloc_headroom -> msgb_alloc ->
+    _talloc_zero(sizeof(struct msgb) + n), msgb_reserve]; then, as the receiver does per payload octet,
+    `if msgb_tailroom(buffer) < 1: discard  else: p = msgb_put(buffer, 1); *p = octet`.  Observed (never the
+    way a helper is written): (a) every address p lies inside the n octets allocated behind the header;
+    (b) the frame is cut off (tailroom 0) by the receiver's test, not by msgb_put()'s panic, and not before
+    min(SERCOMM_RX_MSG_SIZE, real room of the fresh buffer) octets are stored (a buffer that is really too small
+    is the capacity obligation of C06.R1); (c) the k-th octet lands at data + k, and data / tail / len describe exactly the octets
+    appended - what the handler of the DLCI reads."""
+    R = "C06.R7"
+    L.unit(MSGB_H)
+    fields = tu.record_fields("msgb")
+    if not fields:
+        raise AnalysisError("struct msgb has no members")
+    last = fields[-1]
+    tq = (last[1] or "").replace("const ", "")
+    L.ob(R, MSGB_H, "struct msgb", "the data area `_data` is the last member of struct msgb and an octet array without extent of its "
+         "own: it starts where the header ends, so a block of sizeof(struct msgb) + n octets has n octets of data area",
+         "_data: octet array [0] / [] as last member", "%s: %s" % last,
+         last[0] == "_data" and tq.split("[")[0].strip() in OCTET_TYPES and tq.endswith(("[0]", "[]")))
+    ev, m, extent = fresh_buffer(tu, mtu, size)
+    for need in ("msgb_tailroom", "msgb_put"):
+        if ev.find(need) is None:
+            raise AnalysisError("anchor function %s() vanished" % need)
+
+    def off(v):
+        return v[2] if _sym(v) and v[1] == "buf" else None
+
+    def state():
+        o = ev.obj
+        return "head=%s data=%s tail=%s data_len=%s len=%s" % tuple(_vtext(o.get(f, 0)) for f in ("head", "data", "tail", "data_len", "len"))
+
+    def real_room():
+        t = off(ev.obj.get("tail", 0))
+        return None if t is None else extent - t
+
+    def oracle_blame(t):
+        """which helper made the reported room differ from the real one (for the message only)"""
+        o = ev.obj
+        ref = _vsub(_vadd(o.get("head", 0), o.get("data_len", 0)), o.get("tail", 0))
+        if ref == real_room() and t != ref:
+            return "msgb_tailroom"
+        if o.get("head", 0) != ("@", "buf", 0) or o.get("data_len", 0) != extent:
+            return "msgb_alloc"
+        if o.get("data", 0) == ("@", "buf", 0) or off(o.get("tail", 0)) is None:
+            return "msgb_reserve"
+        return "msgb_tailroom"
+
+    data0, tail0 = ev.obj.get("data", 0), ev.obj.get("tail", 0)
+    room0 = real_room()
+    safety = integrity = None      # (function, found text)
+    end = None                     # ('discard' | 'abort', fill level, reported room)
+    k = 0
+    limit = max(extent, size) + 64
+    while k < limit:
+        try:
+            t = ev.call("msgb_tailroom", [m])
+        except _Abort as e:
+            raise AnalysisError("msgb_tailroom() ends in %s() at fill level %d -- unclassifiable" % (e, k))
+        if not isinstance(t, int):
+            raise AnalysisError("msgb_tailroom() does not evaluate to an integer at fill level %d (%s)" % (k, state()))
+        if t < 1:
+            end = ("discard", k, t)
+            break
+        room = real_room()
+        before = state()
+        nst = len(ev.stores)
+        try:
+            p = ev.call("msgb_put", [m, 1])
+        except _Abort:
+            end = ("abort", k, t)
+            break
+        po = off(p)
+        if po is None:
+            raise AnalysisError("msgb_put() returns `%s`, which the evaluation cannot place in the buffer (fill level %d)" % (_vtext(p), k))
+        bad = [a for a in ev.stores[nst:] + [p] if off(a) is None or not 0 <= off(a) < extent]
+        if bad:
+            blame = oracle_blame(t) if room is not None and t != room else "msgb_put"
+            safety = (blame, "payload octet #%d is stored at %s, the data area allocated by msgb_alloc() is _data[0..%d]; "
+                      "msgb_tailroom() reported %d, real room %s (%s)" % (k + 1, _vtext(bad[0]), extent - 1, t,
+                                                                          "?" if room is None else room, before))
+            break
+        o = ev.obj
+        if (p != _vadd(data0, k) or o.get("data", 0) != data0 or o.get("tail", 0) != _vadd(data0, k + 1)
+                or o.get("len", 0) != k + 1):
+            blame = "msgb_put" if k > 0 or tail0 == data0 else "msgb_reserve"
+            integrity = (blame, "payload octet #%d stored at %s; before: %s, afterwards: %s" % (k + 1, _vtext(p), before, state()))
+            break
+        k += 1
+    else:
+        raise AnalysisError("msgb evaluation: no end of the frame after %d octets -- unclassifiable" % limit)
+
+    def fline(name):
+        hit = ev.followed.get(name)
+        return hit[0].line(hit[1]) if hit else None
+
+    def ffile(name):
+        return helper_file(ev, name)
+
+    for name in sorted(ev.followed):
+        L.fn(ffile(name), name)
+    f1 = safety[0] if safety else "msgb_tailroom"
+    L.ob(R, ffile(f1), f1, "receive buffer (%s build, %d): an octet appended after msgb_tailroom() reported room is stored inside "
+         "the allocated data area, at every fill level (over-long frame discarded without corrupting memory)" % (tag, size),
+         "every store inside _data[0..n-1]", safety[1] if safety else "every store inside _data[0..n-1]", safety is None,
+         fline(f1))
+    f3 = integrity[0] if integrity else "msgb_put"
+    L.ob(R, ffile(f3), f3, "receive buffer (%s build, %d): the k-th appended octet lands at data + k and data / tail / len "
+         "describe exactly the appended octets (the handler gets the payload received)" % (tag, size), "p == data + k; tail == data + len; len == octets appended",
+         integrity[1] if integrity else "p == data + k; tail == data + len; len == octets appended", integrity is None, fline(f3))
+    if end is not None:
+        kind_, k0, t = end
+        # a buffer that is really too small for `size` octets is the capacity obligation of C06.R1, not a fault of the oracle
+        want = size if room0 is None else min(size, room0)
+        ok = kind_ == "discard" and k0 >= want
+        if ok and t < 0:
+            # C06.R1 reads `msgb_tailroom() == 0` as `no room` on the premise that the oracle is never negative
+            raise AnalysisError("msgb_tailroom() is negative (%d) at fill level %d of the receive buffer (%s build): the tailroom "
+                                "tests of C06.R1 are not comparable with it -- unclassifiable" % (t, k0, tag))
+        if ok:
+            found = "cut off by the tailroom test at fill level >= %d" % want
+            f2 = "msgb_tailroom"
+        elif kind_ == "abort":
+            f2 = "msgb_put"
+            found = "msgb_put() panics at fill level %d although msgb_tailroom() reported %d (%s)" % (k0, t, state())
+        else:
+            f2 = oracle_blame(t)
+            found = "msgb_tailroom() reports %d at fill level %d, real room %s (%s)" % (t, k0, real_room(), state())
+        L.ob(R, ffile(f2), f2, "receive buffer (%s build, %d): msgb_tailroom() reports room and msgb_put() does not panic while "
+             "fewer than %d payload octets are stored (shorter payloads are delivered, longer ones cut off by the tailroom "
+             "test)" % (tag, size, size),
+             "cut off by the tailroom test at fill level >= %d" % want, found, ok, fline(f2))
+    clean = safety is None and integrity is None and end is not None and end[0] == "discard" and end[1] >= min(size, room0 or 0)
+    L.floor(R, "fill levels of the receive buffer evaluated (%s build)" % tag, k + 1, min(size, room0 or 0) + 1 if clean else 1)
+    L.floor(R, "msgb helpers followed (%s build)" % tag, len(ev.followed), 3)
 
 
 # ------------------------------------------------------- C06.R5 (thorough)
@@ -3613,12 +4165,14 @@ def run(L, tier):
         L.unit(h)
     # every rule group runs as its own stage: an AnalysisError in one of them is deferred, so a violation
     # recognised by another group is still reported
+    mtu = L.stage(load_msgb_tu, L)
     for tag, kindname, relfile, size in BUILDS:
         tu = L.stage(load_tu, L, kindname, relfile)
         rx = L.stage(Rx, tu)
         tx = L.stage(Tx, tu)
         L.stage(r1_bounded_store, L, tu, tag, size, rx)
-        L.stage(r1_capacity, L, tu, tag, size)
+        L.stage(r1_capacity, L, tu, mtu, tag, size)
+        L.stage(r7_msgb_algebra, L, tu, mtu, tag, size)
         L.stage(r4_index_bounds, L, tu, tag)
         L.stage(r4_dispatch, L, tu, tag)
         L.stage(r4_queue_scan, L, tu, tx)
@@ -3631,7 +4185,7 @@ def run(L, tier):
         if chain is None:
             continue
         L.stage(r4_frame_end, L, tu, tag, rx, K, chain)
-    L.stage(r4_msgb, L)
+    L.stage(r4_msgb, L, mtu)
     L.stage(r6_pull_callers, L)
     if tier == "thorough":
         L.stage(r5_callers, L)
